@@ -279,10 +279,10 @@ def audit_file_directly(module, namespace, theorems):
 
 
 # corollaries that combine a regenerated function with theorems of the hand-written model; audited with the `_eq_model` theorem of the function
-GEN_LOGIC_COROLLARIES = {'parse_mpint': ['regenerated_reader_inverts_writer'], 'create_mpint': ['regenerated_roundtrip', 'regenerated_roundtrip_ssh1']}
+GEN_LOGIC_COROLLARIES = {'parse_mpint': ['regenerated_reader_inverts_writer'], 'create_mpint': ['regenerated_roundtrip', 'regenerated_roundtrip_ssh1'], 'kex_parse': ['regenerated_kexinit_roundtrip']}
 
 
-def gen_logic_audit(names):
+def gen_logic_audit(names, corollaries=True):
     """The regenerated-logic tie of a plugin that declares GEN_LOGIC = [function names of harness/translate_logic.py]: regenerate
     lean/SshAudit/Gen/Logic*.lean from the source, build the theorem file(s) of the units concerned (Props/GenLogic.lean, Props/GenLogicCrc.lean)
     and audit `<name>_eq_model` of each name.  Returns ({'GenLogic.<name>_eq_model': {'ok', 'axioms', 'why'}}, info of the translator)."""
@@ -302,7 +302,7 @@ def gen_logic_audit(names):
     for unit, ns in sorted(by_unit.items()):
         module = 'SshAudit.Props.Gen' + unit
         ths = [n + '_eq_model' for n in ns]
-        cors = {c: n for n in ns for c in GEN_LOGIC_COROLLARIES.get(n, [])}
+        cors = {c: n for n in ns for c in GEN_LOGIC_COROLLARIES.get(n, [])} if corollaries else {}
         ths += sorted(cors)
         b = lake_build([module])
         res = audit_theorems(module, 'SshAudit.GenLogic', ths, b)
